@@ -15,7 +15,19 @@
                   comparison (the code since /repo commit fdf6a93); with dev = TRUE it is the textual prefix
                   match (`startswith`) the code had before -- kept to label the input class of that finding
                   (Leak(c)) so that a regression is reported under the same signature.
-   Reach(c)       the router: would service code run for this request if it were authenticated.          *)
+   Reach(c)       the router: would service code run for this request if it were authenticated.
+
+   Besides the base family (every configuration x verb x credential x path) there is a probe family over the
+   routes that reach service code, varying what the statement says must NOT matter:
+     beh    what the authenticate callback does: "decide" (accept iff the credential is good), "unavailable"
+            (raises AuthUnavailableError), "crash" (raises an unexpected exception) -- a callback that did not
+            accept must never be followed by a dispatch, whichever way it failed to accept;
+     decoy  request decoration that mimics an exemption trigger without being one: CORS preflight headers on a
+            non-OPTIONS request, method-override headers, forwarded-URI headers naming the health endpoint, a
+            query string naming exempt paths;
+     entry  how the application was built: make_wsgi_app directly, or through serve_http(authenticate=...);
+     cors   whether cors_origins is configured (falcon's CORS middleware sits in front of authentication);
+   and credentials carried by the PKCE session cookie instead of the Authorization header.                  *)
 EXTENDS Naturals, Sequences, FiniteSets
 
 CONSTANTS PrefixNames,       \* subset of {"root", "vgi", "ab", "health"}: the prefixes "", /vgi, /a/b, /health
@@ -23,7 +35,10 @@ CONSTANTS PrefixNames,       \* subset of {"root", "vgi", "ab", "health"}: the p
           Kinds,             \* subset of {"unary", "producer", "exchange"}
           OAuthModes,        \* subset of {"none", "meta", "pkce"}
           Creds,             \* subset of {"none", "bad", "good"}
-          Verbs,             \* subset of {"GET", "POST", "OPTIONS", "HEAD", "DELETE", "PUT"}
+          Verbs,             \* subset of {"GET", "POST", "OPTIONS", "HEAD", "DELETE", "PUT", "PATCH"}
+          Behaviours,        \* subset of {"decide", "unavailable", "crash"}
+          Decoys,            \* subset of {"none", "preflight", "override", "fwd_uri", "query"}
+          Entries,           \* subset of {"wsgi", "serve_http"}
           Rich,              \* TRUE: all route suffixes and three-segment paths; FALSE: the reduced (quick) path set
           Dev_PrefixMatch    \* TRUE: Leak(c) labels the requests the pre-fdf6a93 prefix match let through; FALSE: no labels
 
@@ -54,15 +69,17 @@ ShortSufs == {Seg("init"), Seg("callback"), Seg("")}
 StartsWith(path, pre) == Len(path) >= Len(pre) /\ SubSeq(path, 1, Len(pre)) = pre
 UnderWellKnown(path) == Len(path) >= 2 /\ path[1] = WK           \* textually "/.well-known/" + anything
 Configs == [prefix : Prefixes, oauth : OAuthModes, health_on : BOOLEAN, kind : Kinds]
+HeaderCreds == Creds \ {"cookie_good", "cookie_bad"}
+CookieCreds == Creds \cap {"cookie_good", "cookie_bad"}
 \* POST gets the full cross product; the other verbs (which never reach an RPC responder) a reduced one
 Relevant(c) == \/ c.verb = "POST" /\ (c.cred = "good" => (StartsWith(c.path, PSegs(c.prefix)) /\ ~UnderWellKnown(c.path)))
                \/ /\ c.kind = CHOOSE k \in Kinds : TRUE
                   /\ c.cred = "none"
                   /\ Len(c.path) <= Len(c.prefix) + 2
                   /\ (Len(c.path) = Len(c.prefix) + 2 => c.path[Len(c.path)] \in ShortSufs)
-Cases == {c \in UNION {[prefix : {g.prefix}, oauth : {g.oauth}, health_on : {g.health_on}, kind : {g.kind},
-                        verb : Verbs, cred : Creds, path : Paths(g.prefix)] : g \in Configs} : Relevant(c)}
-
+BaseCases == {c \in UNION {[prefix : {g.prefix}, oauth : {g.oauth}, health_on : {g.health_on}, kind : {g.kind},
+                            verb : Verbs, cred : HeaderCreds, path : Paths(g.prefix),
+                            beh : {"decide"}, decoy : {"none"}, entry : {"wsgi"}, cors : {FALSE}] : g \in Configs} : Relevant(c)}
 \* ---------------------------------------------------------------- the statement
 P(c) == PSegs(c.prefix)
 HealthPath(c) == P(c) \o <<Seg("health")>>
@@ -101,7 +118,24 @@ Reach(c) ==
      \/ Len(r) = 1 /\ r[1] \in Methods /\ c.kind = "unary" /\ ~Shadowed(r[1], c)
      \/ Len(r) = 1 /\ r[1] \in {Seg("__describe__"), Seg("__introspect_token__")}
      \/ Len(r) = 2 /\ r[1] \in Methods /\ c.kind # "unary" /\ r[2] \in {Seg("init"), Seg("exchange")}
-     \/ r = <<Seg("__upload_url__"), Seg("init")>>
+     \/ (r = <<Seg("__upload_url__"), Seg("init")>> /\ c.entry = "wsgi")     \* serve_http takes no upload provider
+
+\* ---------------------------------------------------------------- probe family (see header)
+\* the requests worth decorating: those that would reach service code, plus the framework pages that need a login
+PageLike(c) == c.verb = "GET" /\ c.path \in {P(c), P(c) \o <<Seg("describe")>>, P(c) \o <<Seg("health")>>}
+Probed(c) == (Reach(c) \/ PageLike(c)) /\ c.cred = "none"
+ProbeCases ==
+  UNION {{[b EXCEPT !.beh = x[1], !.decoy = x[2]] : x \in (Behaviours \X Decoys) \ {<<"decide", "none">>}}
+         : b \in {c \in BaseCases : Probed(c)}}
+  \cup {[b EXCEPT !.cred = k] : b \in {c \in BaseCases : Reach(c) /\ c.cred = "none"}, k \in CookieCreds}
+  \* CORS configured (cors_origins = "*"): a request that merely carries preflight-looking headers is still not OPTIONS
+  \cup {[b EXCEPT !.cors = TRUE, !.decoy = d] : b \in {c \in BaseCases : Probed(c)}, d \in Decoys \cap {"none", "preflight"}}
+  \cup (IF "serve_http" \in Entries
+        THEN {[b EXCEPT !.entry = "serve_http"] :
+                b \in {c \in BaseCases : c.prefix = <<>> /\ c.oauth = "none" /\ c.health_on
+                                          /\ (Reach(c) \/ PageLike(c) \/ Len(c.path) <= 1)}}
+        ELSE {})
+Cases == BaseCases \cup ProbeCases
 
 Expected(c) == [exempt |-> Exempt(c), leak |-> Leak(c), reach |-> Reach(c)]
 
@@ -112,12 +146,16 @@ IntendedNoLeak(c) == ExemptImplD(c, FALSE) => Exempt(c)      \* the same clause 
 IntendedIsExact(c) == ExemptImplD(c, FALSE) <=> Exempt(c)
 ReachNeverExempt(c) == Reach(c) => ~Exempt(c)                \* no service-code route is on the exempt list
 OptionsNeverReach(c) == c.verb = "OPTIONS" => ~Reach(c)
+ProbesDoNotMoveTheOracle(c) ==       \* decoration, callback behaviour, entry point and credential carrier are not in Exempt
+  LET b == [c EXCEPT !.beh = "decide", !.decoy = "none", !.entry = "wsgi", !.cred = "none", !.cors = FALSE] IN
+  Exempt(c) = Exempt(b) /\ (Reach(c) => Reach(b))
 LeakOnlyTwoSites(c) == Leak(c) # "none" => (Dev_PrefixMatch /\ (ImplHealth(c) \/ ImplOAuth(c)))
 
 \* ---------------------------------------------------------------- judging what the real code did
 (* observation o = [status, auth, ran]
      status   HTTP status
-     auth     "none" (callback never consulted) | "accepted" | "rejected"
+     auth     "none" (callback never consulted) | "accepted" | "rejected" | "errored" (the callback raised
+              AuthUnavailableError or an unexpected exception: it neither accepted nor rejected)
      ran      any service code ran (method body, stream state callback, describe payload served,
               upload-URL provider, token resolver)                                                     *)
 Viol(name, ok) == IF ok THEN {} ELSE {name}
@@ -130,5 +168,6 @@ Conforms(c, o) ==
   \cup Viol("OnlyListedBypass", (~Exempt(c)) => o.auth # "none")
   \cup Viol("Rejected401", o.auth = "rejected" => o.status = 401)
   \cup Viol("ListedBypass", Exempt(c) => o.status # 401)
-  \cup Viol("Drift_Reach", (c.cred = "good" /\ ~Exempt(c) /\ o.auth = "accepted") => (o.ran <=> Reach(c)))
+  \cup Viol("Drift_Reach", (~Exempt(c) /\ o.auth = "accepted") => (o.ran <=> Reach(c)))
+  \cup Viol("Drift_Behaviour", (c.beh # "decide" /\ o.auth # "none") => o.auth = "errored")
 =====================================================================================
